@@ -15,7 +15,9 @@ CONSTANTS MaxSteps,      \* bound on the number of actions
           Trees,         \* "all": every subset of Univ initially present; "full": all of Univ present;
                          \* "json": the trees listed in the file $TREES (random sample drawn by the driver; used
                          \* for tlc -simulate, which needs a small set of initial states)
-          Mask,          \* generator masks, one per known finding: "keep-lazy", "no-orphaning", "no-named"
+          Cfgs,          \* codes of the app-configuration values in play (subset of CfgDomain: 0 = no entry, 1 = "p:" None,
+                         \* 2 = {}, 3 = [], 4 / 5 = mappings, 6 = list), see ReloadCore
+          Mask,          \* generator masks, one per known finding: "keep-lazy", "no-orphaning", "no-named", "no-bare-unconfigure"
           NamedArgs,     \* context names used by reload(global_ctx = name)
           Ignore,        \* post-condition clauses not checked by PostHolds (known findings of the intended mechanism)
           ReloadWeight   \* simulation only: number of copies of each Reload successor (tlc -simulate picks uniformly)
@@ -39,7 +41,7 @@ Trees0(ps) == IF ps = {} THEN { <<>> }
               ELSE LET p == CHOOSE q \in ps : TRUE
                    IN { (p :> r) @@ f : r \in InitChoices(p), f \in Trees0(ps \ {p}) }
 
-\* $TREES: [ [cfg |-> 0..2, files |-> << [p |-> path, imps |-> << targets >>] >>] ]
+\* $TREES: [ [cfg |-> code in CfgDomain, files |-> << [p |-> path, imps |-> << targets >>] >>] ]
 JsonTrees == IF Trees = "json" THEN JsonDeserialize(IOEnv.TREES) ELSE <<>>
 TreeFiles(t) == [p \in PathSet |->
                   IF \E k \in 1..Len(t.files) : t.files[k].p = p
@@ -47,7 +49,7 @@ TreeFiles(t) == [p \in PathSet |->
                        IN [ex |-> TRUE, hash |-> FALSE, gen |-> 1, mtime |-> 1, imps |-> { e.imps[j] : j \in 1..Len(e.imps) }]
                   ELSE Absent]
 InitTree == IF Trees = "json" THEN \E k \in 1..Len(JsonTrees) : files = TreeFiles(JsonTrees[k]) /\ cfg = JsonTrees[k].cfg
-            ELSE files \in Trees0(PathSet) /\ cfg \in {0, 1}
+            ELSE files \in Trees0(PathSet) /\ cfg \in Cfgs
 
 Init == /\ InitTree /\ hdirs = {}
         /\ live = LET r == Mechanism(files, {}, cfg, NoCtx, 0, "", Flags)
@@ -59,6 +61,9 @@ Init == /\ InitTree /\ hdirs = {}
 LazyLoaded == LoadedIn(ctx) \ AutoCtx
 MaskOk(F2, H2, G2) ==
   /\ "keep-lazy" \in Mask => \A c \in LazyLoaded : Discover(F2, H2, G2)[c].path # "" \/ (c = "apps.p.h" /\ G2 = 0)
+  \* the app's main file (package form) stays loaded when the entry "p:" (None) is taken away
+  /\ "no-bare-unconfigure" \in Mask => ~(G2 = 0 /\ ctx["apps.p"] # Unl /\ ctx["apps.p"].cfg = 0
+                                          /\ ctx["apps.p"].path = "apps/p/__init__.py" /\ Vis(F2, H2, "apps/p/__init__.py"))
   /\ "no-orphaning" \in Mask => \A c \in LazyLoaded : ctx[c].path \in MayLoaded(World(F2, H2, G2)) \/ Discover(F2, H2, G2)[c].path = ""
 
 \* an edit as the last action of a bounded behaviour cannot be observed by any reload: not generated
@@ -84,7 +89,7 @@ Reload(arg) == /\ steps < MaxSteps /\ steps' = steps + 1 /\ lastAct' = [a |-> "r
                /\ UNCHANGED <<files, hdirs, cfg>>
 Next == \/ \E p \in PathSet : Modify(p) \/ Touch(p) \/ Create(p) \/ Delete(p) \/ HashRename(p)
         \/ \E d \in Dirs : HashDir(d)
-        \/ \E v \in {0, 1, 2} : CfgSet(v)
+        \/ \E v \in Cfgs : CfgSet(v)
         \/ \E arg \in {"", "*"} \cup NamedArgs, k \in 1..ReloadWeight : Reload(arg)
 Spec == Init /\ [][Next]_vars
 View == <<files, hdirs, cfg, ctx, steps, lastAct.a, lastPost>>
@@ -118,6 +123,18 @@ F_ChangedNotDiscarded == lastPost # "changed-not-discarded"
 F_OrphanLoaded        == lastPost # "orphan-loaded"
 F_NotStarted          == lastPost # "not-started"
 F_NeededNotCurrent    == lastPost # "needed-not-current"
+\* ... the app (package form) whose entry "p:" was taken away is still loaded after a default reload
+F_UnconfiguredAppKept == ~(lastAct.a = "reload" /\ lastAct.arg = "" /\ cfg = 0 /\ ctx["apps.p"] # Unl /\ lastPost = "changed-not-discarded")
+\* the configuration VALUE kinds are exercised: an entry without settings that is not None ({} or []) is taken away and the
+\* app's package (main file and sibling) is discarded by a default reload; one present value is replaced by another one
+\* (settings by settings / an empty entry by another empty entry) and the app is re-executed seeing the new value
+W_NoEmptyCfgRemoved == ~(lastAct.a = "reload" /\ lastAct.arg = "" /\ cfg = 0 /\ prev.ctx["apps.p"].cfg \in {2, 3}
+                         /\ prev.ctx["apps.p"].path = "apps/p/__init__.py" /\ prev.ctx["apps.p.h"] # Unl
+                         /\ {"apps.p", "apps.p.h"} \subseteq Discarded(prev.ctx, ctx) /\ ctx["apps.p"] = Unl /\ lastPost = "ok")
+W_NoCfgValueChange  == ~(lastAct.a = "reload" /\ lastAct.arg = "" /\ cfg > 0 /\ prev.ctx["apps.p"] # Unl
+                         /\ prev.ctx["apps.p"].cfg # ValOf(cfg) /\ ctx["apps.p"].inst > prev.n /\ ctx["apps.p"].cfg = ValOf(cfg)
+                         /\ ctx["apps.p"].path = prev.ctx["apps.p"].path /\ ctx["apps.p"].gen = prev.ctx["apps.p"].gen)
+W_NoEmptyToEmpty    == ~(~W_NoCfgValueChange /\ ~Truthy(prev.ctx["apps.p"].cfg) /\ ~Truthy(ValOf(cfg)))
 
 \* all witnesses in one run (workers = 1): registers set by the invariant WitTrack, printed by the post-condition
 \* a diamond with a deeper module behind the join: d changed (n itself not), and some discarded context reaches
@@ -128,10 +145,12 @@ W_NoDeepDiamond == ~(lastAct.a = "reload" /\ "modules.d" \in ChangedCtx(prev.ctx
                      /\ \E x \in Discarded(prev.ctx, ctx) :
                           Cardinality({ y \in prev.ctx[x].imports : "modules.n" \in TransImports(prev.ctx, y) \cup {y} }) >= 2)
 WitNames == << "W_NoImporterDiscard", "W_NoWidening", "W_NoUntouched", "W_NoLazyReload", "W_NoFailedLoad", "W_NoNamed",
-               "F_ChangedNotDiscarded", "F_OrphanLoaded", "F_NotStarted", "F_NeededNotCurrent", "W_NoDeepDiamond" >>
+               "F_ChangedNotDiscarded", "F_OrphanLoaded", "F_NotStarted", "F_NeededNotCurrent", "W_NoDeepDiamond",
+               "F_UnconfiguredAppKept", "W_NoEmptyCfgRemoved", "W_NoCfgValueChange", "W_NoEmptyToEmpty" >>
 WitVal(k) == CASE k = 1 -> ~W_NoImporterDiscard [] k = 2 -> ~W_NoWidening [] k = 3 -> ~W_NoUntouched [] k = 4 -> ~W_NoLazyReload
                [] k = 5 -> ~W_NoFailedLoad [] k = 6 -> ~W_NoNamed [] k = 7 -> ~F_ChangedNotDiscarded [] k = 8 -> ~F_OrphanLoaded
                [] k = 9 -> ~F_NotStarted [] k = 10 -> ~F_NeededNotCurrent [] k = 11 -> ~W_NoDeepDiamond
+               [] k = 12 -> ~F_UnconfiguredAppKept [] k = 13 -> ~W_NoEmptyCfgRemoved [] k = 14 -> ~W_NoCfgValueChange [] k = 15 -> ~W_NoEmptyToEmpty
 ASSUME \A k \in 1..Len(WitNames) : TLCSet(k, FALSE)
 WitTrack  == \A k \in 1..Len(WitNames) : (lastAct.a = "reload" /\ WitVal(k)) => TLCSet(k, TRUE)
 WitReport == PrintT("INFO " \o ToJson([seen |-> { WitNames[k] : k \in { j \in 1..Len(WitNames) : TLCGet(j) } }]))
